@@ -17,10 +17,15 @@
                                                        else VIOL class=order-of-effects | class=semantic-mismatch
      2. model = Rust for both stages (panic messages included)      else DIFF
    Tags after OK: nt (some fresh binder was created), the origin of the case (hand/file/gen and the
-   mutation), pre / nopre, panic, size bucket of the output. *)
+   mutation), pre / nopre, panic, size bucket of the output; for inputs inside the precondition the
+   coverage of the round-2 preservation theorems (Model/FocusGuard.v):
+     thm-static  cs_prog and (the static guard sg_prog (bn=false or kr=false) or the type checker tc_prog):
+                 C03_uniquify_focus_preserves_fragment / _typed applies
+     thm-run     cs_prog and no kind clash on the runs compared: C03_uniquify_focus_preserves_partial applies
+     thm-none    neither (nocs: an occurrence of the wrong chirality; clash: a kind clash on a run). *)
 From Coq Require Import List ZArith NArith String Ascii Bool.
 From SCC Require Import Base.Sexp Lang.SynUtil Lang.CoreSyn Sem.AxSem Sem.CoreSem Model.Backend Model.Uniquify Model.Focus
-     Model.FocusCheck Model.RunBase Model.RunStages.
+     Model.FocusCheck Model.FocusGuard Model.RunBase Model.RunStages.
 Import ListNotations.
 Open Scope string_scope.
 
@@ -82,6 +87,17 @@ Definition sem_hook (p : cprog) (q : fsprog) (args : sexp) : option string * str
                    end) tuples (None, "")
   end.
 
+(* which preservation theorem covers the case *)
+Definition thm_tags (p : cprog) (args : sexp) : string :=
+  let cs := cs_prog p in
+  let guard := sg_prog false true p || sg_prog true false p in
+  let cf := match getL (getL getZ) args with
+            | Some tuples => forallb (fun a => clash_free_prog src_fuel p a) tuples
+            | None => true
+            end in
+  (if cs && (guard || (tc_prog p && tc_entry p)) then " thm-static" else if cs && cf then " thm-run" else " thm-none")
+  ++ (if cs then "" else " nocs") ++ (if cf then "" else " clash") ++ (if tc_prog p && tc_entry p then " typed" else " untyped").
+
 Definition s_res {X} (f : X -> sexp) (r : res X) : sexp :=
   match r with Ok x => f x | Err m => L [A "PANIC"; Q m] end.
 
@@ -141,7 +157,7 @@ Definition focus_case (i r : sexp) : verdict :=
                     else
                       match sem_hook p qf args with
                       | (Some v, _) => (Some v, "")
-                      | (None, t) => (None, nt ++ tags ++ sz ++ " " ++ t)
+                      | (None, t) => (None, nt ++ tags ++ sz ++ " " ++ t ++ thm_tags p args)
                       end
                   else (None, nt ++ tags ++ sz ++ (if uq then " unique-anyway" else " nonunique-outside-pre"))
               | None, _ => (Some "class=unfocused-output uniquified program unreadable", "")
